@@ -10,6 +10,14 @@ Proof. induction sigs; intros; simpl; auto. rewrite IHsigs. reflexivity. Qed.
 Lemma close_sigs_threads : forall sigs c, jthreads (close_sigs c sigs) = jthreads c.
 Proof. induction sigs; intros; simpl; auto. rewrite IHsigs. reflexivity. Qed.
 
+Definition jis_deliver (t : nat) (e : jevent) : bool :=
+  match e with JEDeliver t' _ _ | JEDirect t' _ => Nat.eqb t t' | _ => false end.
+
+Definition jcnt (f : jevent -> bool) (l : list jevent) : nat := length (filter f l).
+
+Lemma jcnt_cons : forall f e l, jcnt f (e :: l) = (b2n (f e) + jcnt f l)%nat.
+Proof. intros. unfold jcnt. simpl. destruct (f e); reflexivity. Qed.
+
 Definition jdel (p : jpc) : bool :=
   match p with QInCaller | QRelock | QCallFinish | QDone => true | _ => false end.
 
@@ -22,13 +30,13 @@ Definition jcall_pc (p : jpc) : bool :=
 
 Definition jtinv (c : jconfig) (t : nat) (th : jthread) : Prop :=
   match j_op th with
-  | JSend _ _ _ => jcall_pc (j_pc th) = true /\ cnt (is_deliver t) (jevents c) = b2n (jdel (j_pc th))
+  | JSend _ _ _ => jcall_pc (j_pc th) = true /\ jcnt (jis_deliver t) (jevents c) = b2n (jdel (j_pc th))
   | JCall _ _ =>
     jcall_pc (j_pc th) = true /\
     match j_pc th with
-    | QDone => (j_out th = ONoSlot /\ cnt (is_deliver t) (jevents c) = 0%nat) \/
-               (j_out th = ORet /\ cnt (is_deliver t) (jevents c) = 1%nat)
-    | pc => cnt (is_deliver t) (jevents c) = b2n (jdel pc)
+    | QDone => (j_out th = ONoSlot /\ jcnt (jis_deliver t) (jevents c) = 0%nat) \/
+               (j_out th = ORet /\ jcnt (jis_deliver t) (jevents c) = 1%nat)
+    | pc => jcnt (jis_deliver t) (jevents c) = b2n (jdel pc)
     end
   | _ => True
   end.
@@ -41,13 +49,21 @@ Ltac jexplode Hs :=
           | match ?x with _ => _ end = Some _ => destruct x eqn:?
           end); try discriminate Hs.
 
-Lemma cnt_deliver_other : forall t t' d l, t <> t' -> cnt (is_deliver t) (EDeliver t' d :: l) = cnt (is_deliver t) l.
+Definition jev_thread (e : jevent) : nat :=
+  match e with JEDeliver x _ _ | JEDirect x _ | JEBegin x _ | JEResolved x _ => x end.
+
+Lemma cnt_deliver_other : forall t e l, t <> jev_thread e ->
+  jcnt (jis_deliver t) (e :: l) = jcnt (jis_deliver t) l.
 Proof.
-  intros. rewrite cnt_cons. simpl. destruct (Nat.eqb t t') eqn:E; [apply Nat.eqb_eq in E; congruence|reflexivity].
+  intros t e l Hne. rewrite jcnt_cons. destruct e; simpl in *; auto;
+    (destruct (Nat.eqb t t0) eqn:E; [apply Nat.eqb_eq in E; congruence|reflexivity]).
 Qed.
 
-Lemma cnt_deliver_same : forall t d l, cnt (is_deliver t) (EDeliver t d :: l) = S (cnt (is_deliver t) l).
-Proof. intros. rewrite cnt_cons. simpl. rewrite Nat.eqb_refl. reflexivity. Qed.
+Lemma cnt_deliver_same : forall t k d l, jcnt (jis_deliver t) (JEDeliver t k d :: l) = S (jcnt (jis_deliver t) l).
+Proof. intros. rewrite jcnt_cons. simpl. rewrite Nat.eqb_refl. reflexivity. Qed.
+
+Lemma cnt_direct_same : forall t d l, jcnt (jis_deliver t) (JEDirect t d :: l) = S (jcnt (jis_deliver t) l).
+Proof. intros. rewrite jcnt_cons. simpl. rewrite Nat.eqb_refl. reflexivity. Qed.
 
 Lemma jupd_nth_cases : forall (l : list jthread) t th th' t0 th0,
   nth_error l t = Some th -> nth_error (upd t th' l) t0 = Some th0 ->
@@ -69,7 +85,7 @@ Ltac goal_matches :=
 Lemma jstep_frame : forall v c t th c',
   nth_error (jthreads c) t = Some th -> jstep_thread v c t th = Some c' ->
   (exists th', jthreads c' = upd t th' (jthreads c) /\ j_op th' = j_op th) /\
-  (forall t0, t0 <> t -> cnt (is_deliver t0) (jevents c') = cnt (is_deliver t0) (jevents c)).
+  (forall t0, t0 <> t -> jcnt (jis_deliver t0) (jevents c') = jcnt (jis_deliver t0) (jevents c)).
 Proof.
   intros v c t th c' Hth Hs.
   unfold jstep_thread, sec_jresolve_start, sec_jfulfil, sec_join_start, sec_join_par, sec_trav, sec_jrelock,
@@ -78,7 +94,7 @@ Proof.
   all: unfold resolve_entry, do_known, do_final.
   all: split; [goal_matches; eexists; simpl; rewrite ?close_sigs_threads; simpl; (split; [reflexivity|simpl; congruence])
               |intros t0 Hne; goal_matches; simpl; rewrite ?close_sigs_events; simpl;
-               rewrite ?(cnt_deliver_other t0 t) by auto; rewrite ?cnt_cons; simpl; reflexivity].
+               repeat (rewrite cnt_deliver_other by (simpl; auto)); reflexivity].
 Qed.
 
 Definition is_call_op (o : jop) : bool := match o with JSend _ _ _ | JCall _ _ => true | _ => false end.
@@ -109,7 +125,7 @@ Proof.
        rewrite (nth_error_upd_same _ _ _ _ _ Hth) in Hth'; inversion Hth'; subst th'; clear Hth' Hup.
   all: unfold jtinv; try (destruct (j_via th)); simpl; rewrite ?Eop; simpl; rewrite ?close_sigs_events; simpl.
   all: repeat match goal with H : j_pc _ = _ |- _ => rewrite H end; simpl.
-  all: rewrite ?cnt_deliver_same, ?cnt_cons; simpl; simpl in HT.
+  all: rewrite ?cnt_deliver_same, ?cnt_direct_same, ?jcnt_cons; simpl; simpl in HT.
   all: try (split; [reflexivity|]).
   all: try (rewrite HT; simpl; auto; fail); try (auto; fail).
 Qed.
@@ -134,12 +150,12 @@ Theorem join_pipelined_exactly_once : forall v np ops c, jreach v np ops c ->
   forall t th, nth_error (jthreads c) t = Some th ->
     match j_op th with
     | JSend _ _ _ =>
-      (cnt (is_deliver t) (jevents c) <= 1)%nat /\
-      (j_pc th = QDone -> cnt (is_deliver t) (jevents c) = 1%nat)
+      (jcnt (jis_deliver t) (jevents c) <= 1)%nat /\
+      (j_pc th = QDone -> jcnt (jis_deliver t) (jevents c) = 1%nat)
     | JCall _ _ =>
-      (cnt (is_deliver t) (jevents c) <= 1)%nat /\
-      (j_pc th = QDone -> (j_out th = ONoSlot /\ cnt (is_deliver t) (jevents c) = 0%nat) \/
-                          (j_out th = ORet /\ cnt (is_deliver t) (jevents c) = 1%nat))
+      (jcnt (jis_deliver t) (jevents c) <= 1)%nat /\
+      (j_pc th = QDone -> (j_out th = ONoSlot /\ jcnt (jis_deliver t) (jevents c) = 0%nat) \/
+                          (j_out th = ORet /\ jcnt (jis_deliver t) (jevents c) = 1%nat))
     | _ => True
     end.
 Proof.
